@@ -105,7 +105,16 @@ impl EntryIoStream for RecStream {
                         self.validation_results += 1;
                         Err(IoStreamError::Validation(ValidationError::invalid(String::new())))
                     }
-                    _ => Err(IoStreamError::Io(io::Error::from(io::ErrorKind::Other))),
+                    _ => {
+                        // any kind of I/O error, including the "transient" ones
+                        let k: u8 = kani::any();
+                        let kind = match k % 3 {
+                            0 => io::ErrorKind::Other,
+                            1 => io::ErrorKind::Interrupted,
+                            _ => io::ErrorKind::BrokenPipe,
+                        };
+                        Err(IoStreamError::Io(io::Error::from(kind)))
+                    }
                 }
             }
         }
@@ -118,6 +127,47 @@ impl EntryIoStream for RecStream {
 }
 
 /// scripts over {Ok, `other`} only (other = 1 Validation or 2 Io): keeps one error type's construction/drop glue out of the formula
+/// a stream that always succeeds (keeps every error branch of the queue out of the formula) and records ids
+pub struct OkStream {
+    pub seen: [u8; LOG],
+    pub n: usize,
+    pub flushes: usize,
+    pub n_at_last_flush: usize,
+    pub dropped: *mut bool,
+    pub publish: Option<fn(&OkStream)>,
+}
+unsafe impl Send for OkStream {}
+impl OkStream {
+    pub fn new(dropped: *mut bool) -> Self {
+        OkStream { seen: [0; LOG], n: 0, flushes: 0, n_at_last_flush: 0, dropped, publish: None }
+    }
+}
+impl Drop for OkStream {
+    fn drop(&mut self) {
+        if let Some(f) = self.publish {
+            f(self);
+        }
+        if !self.dropped.is_null() {
+            unsafe { *self.dropped = true };
+        }
+    }
+}
+impl EntryIoStream for OkStream {
+    fn next(&mut self, entry: &impl Entry) -> Result<(), IoStreamError> {
+        let mut w = IdWriter { id: None, string: false };
+        entry.write(&mut w);
+        assert!(self.n < LOG, "stream log full");
+        self.seen[self.n] = w.id.unwrap_or(255) as u8;
+        self.n += 1;
+        Ok(())
+    }
+    fn flush(&mut self) -> io::Result<()> {
+        self.flushes += 1;
+        self.n_at_last_flush = self.n;
+        Ok(())
+    }
+}
+
 pub fn any_script_of(other: u8) -> [u8; LOG] {
     let m: u8 = kani::any(); // bit i set => entry i fails
     let f = |i: u8| if m & (1 << i) != 0 { other } else { 0 };
@@ -133,13 +183,21 @@ pub fn any_script() -> [u8; LOG] {
 
 // ---- metric recorder counting overflow reports
 pub static mut OVERFLOWS: u64 = 0;
+/// user code runs on the appender's thread inside the recorder callback; a harness can let the writer make
+/// progress at exactly that point (one modelled interleaving point inside `push`)
+pub static mut ON_OVERFLOW_REPORT: Option<fn()> = None;
 pub struct CountingRecorder;
 impl metrique_writer::sink::verif_hooks::MetricRecorder for CountingRecorder {
     fn record_histogram(&self, _metric: &'static str, _sink: &str, _value: u32) {}
     fn increment_counter(&self, metric: &'static str, _sink: &str, value: u64) {
         // "metrique_queue_overflows" is the only counter whose name has 'q' at index 9
         if metric.len() == 24 && metric.as_bytes()[9] == b'q' {
-            unsafe { OVERFLOWS += value };
+            unsafe {
+                OVERFLOWS += value;
+                if let Some(f) = ON_OVERFLOW_REPORT {
+                    f();
+                }
+            }
         }
     }
     fn set_gauge(&self, _metric: &'static str, _sink: &str, _value: f64) {}
